@@ -26,6 +26,7 @@ STAGES = {
     "C03": [S("regress", "^TestC03Regress$"),
             S("structured", "^TestC03$", quick=1500, thorough=10000, shards=(4, 16)),
             S("raw", "^TestC03Raw$", quick=8000, thorough=60000, shards=(4, 16))],
+    "C04": [S("cuts", "^TestC04$", quick=40, thorough=60, shards=(6, 16), timeout=("15m", "120m"), shrinktime="60s")],
     "C06": [S("codes", "^TestC06$", shards=(8, 16)),
             S("mixed", "^TestC06Mixed$", quick=3000, thorough=20000, shards=(2, 16))],
 }
